@@ -1,8 +1,8 @@
 """
 C14  Removing or differentiating by a tensor undoes a contraction exactly.
 
-remove_tensor: the real function is run on generated expressions (one occurrence
-of the tensor per term); the returned block expressions are re-contracted with
+remove_tensor: the real function is run on generated expressions (one or two
+occurrences of the tensor per term, the two mostly contracted with each other); the returned block expressions are re-contracted with
 the canonical tensor of each block over *unrestricted* indices with the weight
 c/|G| (|G| = order of the symmetry group of the tensor block, c = 2 for a
 bra-ket (anti)symmetric tensor: canonical blocks only, partner folded; ADC
@@ -498,7 +498,7 @@ def main():
          "source_sha": driver.src_hash(*FILES)}]
     run.cov["bounds"] = {
         "removed tensors": [f"{s[0]} {s[1]} {s[2]} bks={s[3]}" for s in REMOVABLE],
-        "expressions": "1-3 terms, tensor x 1-2 remainder tensors, no index more than twice per term (Einstein convention unambiguous); remove_tensor: target-carrying and repeated indices on the removed tensor occur, one occurrence with exponent 1 per term (the normalisation for several occurrences is not documented: outside); derivative: 1-2 occurrences, exponent <= 2, all indices of the tensor contracted (with target indices on the tensor the block-wise result has no deltas and no well-defined contraction: outside)",
+        "expressions": "1-3 terms, tensor x 1-2 remainder tensors, no index more than twice per term (Einstein convention unambiguous); remove_tensor: target-carrying and repeated indices on the removed tensor occur, one or two occurrences with exponent 1 per term (two: independent or contracted with each other, the copy named first in the sorted key carries the lowest non-target names; explicit target indices in a quarter of the cases); derivative: 1-2 occurrences, exponent <= 2, all indices of the tensor contracted (with target indices on the tensor the block-wise result has no deltas and no well-defined contraction: outside)",
         "models": "<= 3o3v", "shapes": n, "z3_timeout_ms": TIMEOUT}
     run.cov["rule"] = "seeded generator; distinct = distinct (input, tensor)"
     run.assumptions += [
